@@ -66,6 +66,12 @@ CLAIMED = {
    design="5/C20"),
 }
 
+# fragments written by the builders of the other properties
+import glob
+for frag in sorted(glob.glob(os.path.join(V, "manifest.*.json"))):
+    for pid, e in json.load(open(frag)).items():
+        CLAIMED[pid] = dict(technique=e["technique"], level=e.get("level", "exploration"), text=e["text"], note=e["note"], design="5/" + pid + " and 11")
+
 REASON_TODO = "check not built yet in this session; no claim is made"
 ALL = [json.loads(l)["id"] for l in open(os.path.join(V, "properties.jsonl"))]
 
